@@ -38,8 +38,11 @@ class Check(CheckBase):
             '(b) sys.monitoring LINE+CALL yield injection (p in {0.02,0.06,0.15}) on every Repository method and closure, with separate (longer) delays at calls on synchronisation objects (queue/future/event/lock) and, in the sync-stress cases, a slow producer, '
             '(c) switch interval 10us; compared with a sequential reference run (N=1, no perturbation): manifest equal '
             'modulo timestamp/list order, restored tree byte-equal; online invariant in-flight transfers <= N at every '
-            'transfer entry; after the operation returned or raised and the backend is quiescent the slot queue holds '
-            'exactly {2..N+1}; termination decided by a quiescent-deadlock detector (no monitored event and no backend call '
+            'transfer entry; after the operation returned or raised and everything it started has come to rest the slot queue '
+            '(found by type) holds exactly the slots the object started with, and - behaviourally - the SAME object can still keep N '
+            'transfers in flight at once (rendezvous in the store; on failure a second try, then a fresh object for comparison); half '
+            'of the failing operations are followed at once by another command on the same object while slow transfers of the failed '
+            'one are still under way; termination decided by a quiescent-deadlock detector (no monitored event and no backend call '
             'for 2 s and two identical stack samples); failure variants inject one permanent backend fault; process-level '
             'variant: a failing command run through asyncio.run in a child must let the interpreter exit. '
             'A class is a distinct (completion-order fingerprint) or (interleaving signature) or (kind,N,flavour,shape) tuple')
